@@ -183,7 +183,7 @@ func c17Generic(s *core.Sub, cv *core.Conv, doc []byte) (uint64, []*tblShape) {
 	return 0, shapes
 }
 
-var c17Contents = []string{"a", " ", "\\|", "`a\\|b`", " a ", "*a*", "x y"}
+var c17Contents = []string{"a", " ", "\\|", "`a\\|b`", " a ", "*a*", "x y", "`a\\|b\\|c`"}
 var c17Aligns = []struct{ delim, name string }{{"-", ""}, {":-", "left"}, {"-:", "right"}, {":-:", "center"}}
 
 // c17Row prints one row; lead/trail say whether the leading/trailing pipe is written. ok=false when the
@@ -253,7 +253,7 @@ func runC17(r *core.Run) {
 		if cn != "table+align=attr" && r.Quick() {
 			maxRows = 0
 		}
-		s := r.Sub("structured/"+cn, fmt.Sprintf("header cells h∈1..3 × delimiter cells d∈1..3 × all alignment vectors × body rows 0..%d with 0..4 cells × 7 content rotations (%q) × leading/trailing pipe present or absent on header, delimiter and body rows × placement {top, after a paragraph line, in a block quote, in a list item} under %s; h≠d ⇒ no <table>; h=d ⇒ exactly the predicted shape (one header row, every body row h cells, written cells carry the column alignment, padded cells empty and unaligned); distinct = output digest", maxRows, c17Contents, cn))
+		s := r.Sub("structured/"+cn, fmt.Sprintf("header cells h∈1..3 × delimiter cells d∈1..3 × all alignment vectors × body rows 0..%d with 0..4 cells × 8 content rotations (%q) × leading/trailing pipe present or absent on header, delimiter and body rows × placement {top, after a paragraph line, in a block quote, in a list item} under %s; h≠d ⇒ no <table>; h=d ⇒ exactly the predicted shape (one header row, every body row h cells, written cells carry the column alignment, padded cells empty and unaligned); distinct = output digest", maxRows, c17Contents, cn))
 		s.Bound = fmt.Sprintf("h,d≤3 rows≤%d cells≤4", maxRows)
 		mr := maxRows
 		core.ForEachIndex(len(combos), core.Workers(), func(w int) func(int) {
